@@ -314,7 +314,7 @@ def parse_tables(rd, strict=True):
     step(dropped_on)
 
     def keyword():
-        m = one(r'if aid\.allows_inherit_value\(\) && &\*value == "([^"]*)" \{\s*return resolve_inherit\(parent_id, aid, doc\);',
+        m = one(r'if aid\.allows_inherit_value\(\) && &\*value == "([^"]*)" \{\s*return resolve_inherit\(parent_id, aid, important, doc\);',
                 apa, "inherit keyword test")
         t['inherit_keyword'] = m.group(1)
     step(keyword)
@@ -342,9 +342,13 @@ def parse_tables(rd, strict=True):
         rin = re.sub(r"\s+", " ", ri)
         for frag in ("if aid.is_inheritable() {", ".get(parent_id) .ancestors() .find(|n| n.has_attribute(aid))",
                      "} else { if let Some(attr) = doc .get(parent_id) .attributes() .iter() .find(|a| a.name == aid)",
-                     "important: attr.important,", "doc.append_attribute(aid, roxmltree::StringStorage::Borrowed(value), false);"):
+                     "name: aid, value: attr.value, important, });",
+                     "doc.append_attribute(aid, roxmltree::StringStorage::Borrowed(value), important);"):
             if frag not in rin:
                 raise Missing("resolve_inherit: fragment %r not found" % frag)
+        # the pushed attribute takes the flag of the declaration that says `inherit` (two copy sites + the fallback)
+        if rin.count("name: aid, value: attr.value, important, });") != 2 or "attr.important" in rin:
+            raise Missing("resolve_inherit: the important flag of the pushed attribute is no longer the declaration's")
     step(inherit_flow)
 
     units = strip_comments(rd(UNITS))
